@@ -604,8 +604,8 @@ def corpus_cases():
 
 def streams(rng, tier, seed):
     quick = tier == "quick"
-    n_rand = 1000 if quick else 40000
-    n_chain = 1000 if quick else 40000
+    n_rand = 400 if quick else 40000
+    n_chain = 500 if quick else 40000
     maxlen = 9 if quick else 14
     rand = [gen_case(rng, i, maxlen) for i in range(n_rand)]
     chain = [gen_chain_case(rng, 200000 + i, maxlen + 2) for i in range(n_chain)]
@@ -613,6 +613,12 @@ def streams(rng, tier, seed):
     # two-level tree, every history of 3 cycles over {each selector silent | one of its branches} x {no target, every
     # target ticks}; thorough adds sets with {none, a, b, c, all} ticking, an if_cmp below the root, and 4 cycles
     exh_chain = exhaustive_chain(rng, "i(i(a,b),c)", ["ts"], 3, 300000, [(), ("a", "b", "c")])
+    if quick:
+        # the exhaustive small-scope sets are sampled in the quick tier (thorough runs them whole)
+        if len(exh) > 400:
+            exh = rng.sample(exh, 400)
+        if len(exh_chain) > 700:
+            exh_chain = rng.sample(exh_chain, 700)
     out = [Stream("histories", EXE, model_cmd("C13"), corpus_cases() + rand),
            Stream("chained", EXE, model_cmd("C13"), chain),
            Stream("small-scope", EXE, model_cmd("C13"), exh),
